@@ -185,7 +185,7 @@ macro_rules! harness {
                                     }
                                     let desc = format!("{} rules {:?} servers {servers} clients {clients} put_count {put_count} network {kind} lossy {lossy}", stringify!($actor), rules);
                                     let rv = json!({"engine": "c18b", "system": desc});
-                                    begin_case(shared, &desc, rv.clone(), "machinery:hang");
+                                    begin_case(shared, &desc, rv.clone(), "machinery:hang-long");
                                     // shadow for the initial state
                                     let init = m.init_states().remove(0);
                                     let mut shadow0: H = LinearizabilityTester::new($init);
